@@ -23,6 +23,7 @@ func checkC17(c *core.Ctx, r *core.Report) {
 		"(1) PAIR query lifecycle — in every function that calls query.StartQuery/StartQueryAsCoordinator, each return reachable from the success edge of the start is preceded on its path by DeleteQuery (called, deferred, or delegated to a goroutine that deletes its qid on every loop exit) for the same qid variable (phi web), so no entry stays in the running/waiting tables; " +
 		"(2) PAIR/LOCKORDER on the query-table locks (arqMapLock, waitingQueriesLock, RunningQueryState.rqsLock, …) in the query front-end packages; " +
 		"(3) no blocking channel send while the global running-queries lock may be held (a full StateChan would block every other query), except on a channel created in the same function; " +
+		"(4b) SCANALL — an index loop of the query package over the waiting queue is bounded by a length, not by a length minus a constant (a deleted or cancelled query is found wherever it waits); " +
 		"(4) ASSERT — in the PromQL front end and in the Elasticsearch query-DSL walker (pkg/es/query) every unchecked type assertion on an interface value is dominated by a successful comma-ok/type-switch test of the same value to the same type, is trivially true, or asserts a parameter that every static caller passes as a value of that static type or after its own successful type test; " +
 		"(7) ADMIT — in the admission loop a query taken from the waiting queue is registered in the running table by a synchronous call before canRunQuery() is evaluated again; " +
 		"(8) CLEANED — DataProcessor.Fetch hands input to its processor only where isCleanupCalled, read under processorLock, is known false; " +
@@ -31,6 +32,7 @@ func checkC17(c *core.Ctx, r *core.Report) {
 	r.NotCovered = "parser termination and determinism, bounded answer time, goroutine leaks other than through the lifecycle pairing, admission-limit arithmetic, panics from other causes (index, nil)"
 	a := lockAnalysis(c)
 	c17Admission(c, r, newSummaries(c))
+	c17ScanAll(c, r)
 	c17Cleaned(c, r, a)
 	c17SingleAdmitter(c, r, a, newSummaries(c))
 	c17TerminalStates(c, r)
